@@ -207,6 +207,35 @@ pub fn run(ctx: &Ctx) {
     ctx.generated("generated_library_rng", "proptest cases, nonce from the library's RNG: independent decryption, round trip", ctx.tier.pick(1_500, 30_000), move || enc_case(false, maxlen), check_enc);
     ctx.generated("reference_encrypted", "ciphertexts made by the reference encryptor decrypt under the library", ctx.tier.pick(1_000, 20_000), move || enc_case(true, 600), check_ref_enc);
 
+    let two_byte = ctx.tier.pick(false, true);
+    ctx.listed("crafted_zero_kdf", "one-byte (thorough: also two-byte) messages with a nonce k, found by walking k upwards with the reference, for which t = KDF(x2||y2, |M|) is all zero: GB/T 32918.4 step A5 sends the encryptor back to A1, so with candidates (k_bad, k_good) injected the ciphertext must be exactly the one for k_good (nothing of the abandoned attempt may leak into it); a one-byte message meets such a k once in 256 encryptions", move || {
+        use rayon::prelude::*;
+        let n = &r2::params().n;
+        let mut v = Vec::new();
+        for (j, msg_len) in [1usize, 1, 1, 1, 2].iter().enumerate() {
+            if *msg_len == 2 && !two_byte {
+                continue;
+            }
+            let d = from_be(&expand_bytes(seed ^ (0x2e50 + j as u64), 32)) % (n - 2u32) + 1u32;
+            let pk = r2::g_mul(&d);
+            let msg_seed = seed ^ (0x2e51 + j as u64);
+            let msg = expand_bytes(msg_seed, *msg_len);
+            let start = from_be(&expand_bytes(seed ^ (0x2e52 + j as u64), 24));
+            let span = if *msg_len == 1 { 4096u64 } else { 1 << 19 };
+            // encrypt_with_k returns None exactly when the standard demands another k
+            let hit = (0..span).into_par_iter().find_first(|i| r2::encrypt_with_k(&pk, &msg, &(&start + *i)).is_none());
+            if let Some(i) = hit {
+                v.push(EncCase { d: gen::hex32(&d), msg_len: *msg_len, msg_seed, msg_class: ((j % 6) as u8) << 4, compressed: j & 1 == 1, c1c3c2: j & 2 == 2, k: Some(gen::hex32(&(&start + i))) });
+            }
+        }
+        v
+    }, |c| {
+        if r2::encrypt_with_k(&r2::g_mul(&from_be(&c.d)), &c.msg(), &from_be(&c.k.as_ref().unwrap().0)).is_some() {
+            return pass(false, "crafting-failed");
+        }
+        check_enc(c).map(|_| Pass { nt: true, class: format!("zero-KDF/mlen={}", c.msg_len) })
+    });
+
     ctx.exhaustive("keys_and_nonces_with_zero_limbs", "d (resp. k) with an all-zero 64-bit limb below a non-zero limb and zero runs across limb boundaries: exact ciphertext, independent decryption, round trip (decryption multiplies C1 by d, encryption multiplies G and P by k)", move || {
         let n = &r2::params().n;
         let mut v = Vec::new();
